@@ -320,7 +320,8 @@ fn dec_value(bytes: &[u8], idx: &mut usize) -> Result<Value> {
         }
         4 => {
             let len = read_len(bytes, idx, info)? as usize;
-            let mut items = Vec::with_capacity(len);
+            // Every element occupies at least one byte: never reserve more than the input holds.
+            let mut items = Vec::with_capacity(len.min(bytes.len().saturating_sub(*idx)));
             for _ in 0..len {
                 items.push(dec_value(bytes, idx)?);
             }
@@ -328,7 +329,8 @@ fn dec_value(bytes: &[u8], idx: &mut usize) -> Result<Value> {
         }
         5 => {
             let len = read_len(bytes, idx, info)? as usize;
-            let mut entries = Vec::with_capacity(len);
+            // Every entry occupies at least two bytes: never reserve more than the input holds.
+            let mut entries = Vec::with_capacity(len.min(bytes.len().saturating_sub(*idx) / 2));
             let mut last_key: Option<Vec<u8>> = None;
             for _ in 0..len {
                 let key_start = *idx;
